@@ -55,6 +55,11 @@ structure Src where
   recordTypeCCS : Nat
   alertBadRecordMAC : Nat
   alertInternalError : Nat
+  /-- `writeRecordLocked`: when `c.write` (the hand-over of a sealed record to the transport) fails,
+  the function returns with the sequence number of that record CONSUMED — tlcp: `encrypt` has
+  advanced `out.seq` and the error branch does not touch it; dtlcp: `c.writeSeq++` stands before the
+  write.  `false`: the next record is sealed under the same number (from `writeRecordPerRecord`). -/
+  seqConsumedOnWriteError : Bool := true
 
 /-! ### prf.go -/
 
@@ -323,6 +328,53 @@ def writeOne (P : Prims) (S : Src) (st : Stack) (w : WriteSide) (typ vers : Nat)
     .ok (rec, match st with | .tlcp => w2 | .dtlcp => { w2 with writeSeq := (w2.writeSeq + 1) % 2^64 })
   | .alert a => .alert a
   | .panic => .panic
+
+/-- The same iteration when `c.write` returns an error (transport fault: deadline, reset, partial
+write): `writeRecordLocked` returns at once. The record was sealed — its bytes may be on the wire in
+part or in full — and the connection is left in the state computed here; `sendAlertLocked`
+(close_notify from `Close`/`CloseWrite`, alerts of the read path) calls `writeRecordLocked` again on
+this state without looking at the sticky write error. -/
+def writeOneFailed (P : Prims) (S : Src) (st : Stack) (w : WriteSide) (typ vers : Nat) (chunk rand : Bytes) :
+    Outcome (Bytes × WriteSide) :=
+  let w1 := match st with | .tlcp => w | .dtlcp => setWriteSeq w
+  match encrypt P S st w1.out (buildHeader st w1 typ vers chunk.length) chunk rand with
+  | .ok (rec, out') =>
+    .ok (rec,
+      if S.seqConsumedOnWriteError then
+        match st with
+        | .tlcp => { w1 with out := out' }
+        | .dtlcp => { w1 with out := out', writeSeq := (w1.writeSeq + 1) % 2^64 }
+      else
+        -- the number is handed back / never advanced
+        match st with
+        | .tlcp => { w1 with out := { out' with seq := w.out.seq } }
+        | .dtlcp => { w1 with out := out' })
+  | .alert a => .alert a
+  | .panic => .panic
+
+/-- one record with the transport's answer -/
+def writeOneT (P : Prims) (S : Src) (st : Stack) (w : WriteSide) (typ vers : Nat) (chunk rand : Bytes) (sent : Bool) :
+    Outcome (Bytes × WriteSide) :=
+  if sent then writeOne P S st w typ vers chunk rand else writeOneFailed P S st w typ vers chunk rand
+
+/-- the 64-bit number the NEXT record will be sealed under (MAC input / additional data / explicit
+GCM nonce): tlcp `out.seq`, dtlcp what `setWriteSeq` will load from writeEpoch / writeSeq -/
+def nextSealSeq (st : Stack) (w : WriteSide) : Bytes :=
+  match st with
+  | .tlcp => w.out.seq
+  | .dtlcp => (setWriteSeq w).out.seq
+
+/-- A history of single-record writes (type, content, IV source, did the transport take it): the
+records handed to the transport and the number each was sealed under. A failed write of
+application data makes later `Write`s fail without sealing (sticky error), but alerts are still
+sealed — so any tail of records may follow a failure. Stops at the first alert/panic outcome. -/
+def writeHistory (P : Prims) (S : Src) (st : Stack) (vers : Nat) :
+    WriteSide → List (Nat × Bytes × Bytes × Bool) → List (Bytes × Bytes)
+  | _, [] => []
+  | w, (typ, chunk, rand, sent) :: rest =>
+    match writeOneT P S st w typ vers chunk rand sent with
+    | .ok (rec, w') => (nextSealSeq st w, rec) :: writeHistory P S st vers w' rest
+    | _ => []
 
 /-- the loop: chunks of at most `maxPayload` bytes; `rands` supplies one IV source per record -/
 def writeChunks (P : Prims) (S : Src) (st : Stack) (typ vers maxPayload : Nat) :
